@@ -57,6 +57,10 @@ ZLIB_ASSUME = [
 SLOT_API = [P_ + 'v2::track_impl::' + f for f in ('hot_cue_at', 'set_hot_cue_at', 'loop_at', 'set_loop_at')] + \
            [P_ + 'v1::engine_track_impl::' + f for f in ('hot_cue_at', 'set_hot_cue_at', 'loop_at', 'set_loop_at')]
 
+def _rest(keys, already):
+    return [k for k in keys if k not in already]
+
+
 PROPS = {
     'C15': {
         'tus': [EDU] + V2 + V1 + [E + 'v2/track_impl.cpp', E + 'v1/engine_track_impl.cpp', E + 'engine.cpp'],
@@ -79,18 +83,18 @@ PROPS = {
     },
     'C03': {
         'tus': [EDU] + V2 + V1,
-        'functions': ['harness:roundtrip.int32', 'harness:roundtrip.int64', 'harness:roundtrip.double', 'harness:roundtrip.uint8'] + REJECTION + [P_ + 'v2::track_data_blob::from_blob@accepts_own_encoding', P_ + 'v2::overview_waveform_data_blob::from_blob@accepts_own_encoding'],
+        'functions': ['harness:roundtrip.int32', 'harness:roundtrip.int64', 'harness:roundtrip.double', 'harness:roundtrip.uint8'] + REJECTION + [P_ + 'v2::track_data_blob::from_blob@accepts_own_encoding', P_ + 'v2::overview_waveform_data_blob::from_blob@accepts_own_encoding'] + _rest(ENC_V2 + DEC_V2_LAYOUT + ENC_V1 + DEC_V1_LAYOUT + [P_ + 'encode_extra', P_ + 'decode_extra'] + SEQ, REJECTION),
         'level': 'proof',
-        'assumptions': FORMAT_ASSUME + ['C03 is decided on top of the layout contracts of C02 (same contracts, checked by the C02 command): encoder and decoder of a blob kind apply inverse codecs to the same fields at the same positions, so decode(encode(v)) == v follows field by field from the bit-level inverse lemmas proved here; that composition step is an argument over the contracts, not a separately mechanised lemma',
+        'assumptions': FORMAT_ASSUME + ['C03 is decided on top of the layout contracts (the same contracts as C02, re-checked by this command): encoder and decoder of a blob kind apply inverse codecs to the same fields at the same positions, so decode(encode(v)) == v follows field by field from the bit-level inverse lemmas proved here; that composition step is an argument over the contracts, not a separately mechanised lemma',
                         'domain: label lengths, slot counts and vector sizes unbounded (no unwinding); the total payload is at most 2^31-1 bytes'],
         'explanation': 'Proved here: (1) every fixed-width decoder inverts its encoder and vice versa on the real bodies, bit-exactly for all 2^64 values (doubles by bit pattern); (2) the unencodable values are rejected: a cue/loop label over 255 bytes or (1.x) an empty label raises instead of being written, more than 8 hot cues are rejected in 1.x, a 1.x quick-cue blob is only produced for exactly 8 slots; (3) the reserved empty-slot encodings (offset -1) are the only values read back as absent.  One recorded finding (extra_data on track-data / overview blobs is written but cannot be read back) is exhibited and reported as KNOWN-FINDING.',
     },
     'C04': {
         'tus': [EDU] + V2,
-        'functions': [P_ + 'encode_extra', P_ + 'decode_extra'] + [k for k in DEC_V2_LAYOUT] + [P_ + 'v2::beat_data_blob::from_blob', P_ + 'v2::' + ANON + 'decode_beatgrid#loop0', P_ + 'v2::' + ANON + 'decode_beatgrid', P_ + 'v2::quick_cues_blob::to_blob', P_ + 'v2::loops_blob::to_blob#loop1'],
+        'functions': [P_ + 'encode_extra', P_ + 'decode_extra'] + [k for k in DEC_V2_LAYOUT] + [P_ + 'v2::beat_data_blob::from_blob', P_ + 'v2::' + ANON + 'decode_beatgrid#loop0', P_ + 'v2::' + ANON + 'decode_beatgrid', P_ + 'v2::quick_cues_blob::to_blob', P_ + 'v2::loops_blob::to_blob#loop1'] + _rest(ENC_V2 + SEQ, [P_ + 'v2::quick_cues_blob::to_blob', P_ + 'v2::loops_blob::to_blob#loop1']),
         'level': 'proof',
         'assumptions': FORMAT_ASSUME + ['decided at the blob level only: that every schema-2.x setter is a read-modify-write of exactly one field of a decoded blob (track_impl.cpp, through the SQL-backed table layer) is not covered',
-                        'the encoder side of the re-encoding argument (each field written back by the inverse codec at the same position, payload exactly filled) is the set of to_blob layout contracts checked by the C02 command; here the decoder side and the two places where bytes may legitimately change are re-checked'],
+                        'the encoder side of the re-encoding argument (each field written back by the inverse codec at the same position, payload exactly filled) is the set of schema-2.x to_blob layout contracts (the same contracts as C02, re-checked by this command)'],
         'explanation': 'For every payload a schema-2.x decoder accepts: every field is kept verbatim in the decoded value (asserted field by field against the value the codec read at its position), unknown fields and flag bytes included, every trailing byte is captured as extra_data and written back verbatim, counts are taken from the payload, and the only normalisation is the boolean main-cue-adjusted byte (any non-zero reads as true, true is written as 1).',
     },
     'C20': {
@@ -147,3 +151,11 @@ PROPS = {
         'explanation': 'Every decoder, the decompression routine and every helper they call is checked against its contract by cbmc: all reads in bounds for every buffer up to 2^31-1 bytes and every embedded count, no signed overflow, only std::exception-derived exception kinds escape, every loop closed by an inductive invariant and a decreasing variant (no unwinding bound).',
     },
 }
+
+
+for _p in PROPS.values():
+    _seen = []
+    for _k in _p['functions']:
+        if _k not in _seen:
+            _seen.append(_k)
+    _p['functions'] = _seen
